@@ -48,7 +48,9 @@ Gt(T, a, b) == Bin("greater", C2(T), a, b)
 Ge(T, a, b) == Bin("greater_eq", C2(T), a, b)
 
 \* ------------------------------------------------------------------ instances
-NoX == [sizes |-> <<>>, coeffs |-> <<>>, inst |-> <<>>, ctx |-> <<>>]
+\* names: binder names by nesting depth (default v0, v1, ..) for the steps in which the NAME of a bound variable matters
+NoX == [sizes |-> <<>>, coeffs |-> <<>>, inst |-> <<>>, ctx |-> <<>>, names |-> <<>>]
+BX(ns) == [NoX EXCEPT !.names = ns]
 PS(c) == [h |-> <<>>, c |-> c]
 PH(h, c) == [h |-> h, c |-> c]
 I(rule, prems, cl) == [rule |-> rule, mut |-> "correct", prems |-> prems, cl |-> cl, x |-> NoX]
@@ -178,6 +180,21 @@ R_cong == { I("verit_cong", <<PS(Eqa(ca, cb))>>, <<Eqa(F1(ff, ca), F1(ff, cb))>>
             I("verit_cong", <<PS(Iff(vp, vq))>>, <<Iff(Conj(vp, vr), Conj(vq, vr))>>),
             I("verit_cong", <<PS(Iff(vp, vq)), PS(Iff(vr, vs))>>, <<Iff(Disj(vp, vr), Disj(vq, vs))>>),
             I("verit_cong", <<PS(Eqa(ca, cb))>>, <<Iff(Eqa(ca, cc), Eqa(cb, cc))>>) }
+\* congruence with QUANTIFIED arguments: the bound variable is named like a free symbol of a premise (bx) or not (default v0);
+\* a premise about the free symbol must never rewrite the bound variable
+bx == <<"var","bx",TA>>
+kB == <<"var","k",FunT(BoolT,TA)>>
+R_cong_binder ==
+  UNION { { IX("verit_cong", <<PS(Iff(vp, vq))>>, <<Iff(Conj(vp, All(TA, F1(pP, B0))), Conj(vq, All(TA, F1(pP, B0))))>>, BX(ns)),
+            IX("verit_cong", <<PS(Eqa(bx, ca))>>, <<Iff(Conj(F1(pR, bx), Ex(TA, F1(pP, B0))), Conj(F1(pR, bx), Ex(TA, F1(pP, B0))))>>, BX(ns)),
+            IX("verit_cong", <<PS(Eqa(bx, ca)), PS(Iff(All(TA, F1(pP, B0)), vq))>>, <<Eqa(F1(kB, All(TA, F1(pP, B0))), F1(kB, vq))>>, BX(ns)),
+            NM(IX("verit_cong", <<PS(Eqa(bx, ca))>>, <<Iff(All(TA, F1(pP, B0)), All(TA, F1(pP, ca)))>>, BX(ns)), "nm.capture"),
+            NM(IX("verit_cong", <<PS(Eqa(bx, ca))>>, <<Iff(Ex(TA, F1(pP, B0)), Ex(TA, F1(pP, ca)))>>, BX(ns)), "nm.capture"),
+            NM(IX("verit_cong", <<PS(Eqa(ca, bx))>>, <<Iff(Conj(vr, All(TA, F2(pQ, B0, cb))), Conj(vr, All(TA, F2(pQ, ca, cb))))>>, BX(ns)), "nm.capture"),
+            NM(IX("verit_cong", <<PS(Eqa(bx, ca))>>, <<Eqa(F1(kB, All(TA, F1(pP, B0))), F1(kB, All(TA, F1(pP, ca))))>>, BX(ns)), "nm.capture"),
+            IX("verit_eq_congruent", <<>>, <<Neg(Iff(All(TA, F1(pP, B0)), vq)), Eqa(F1(kB, All(TA, F1(pP, B0))), F1(kB, vq))>>, BX(ns)),
+            NM(IX("verit_eq_congruent", <<>>, <<Neg(Eqa(bx, ca)), Eqa(F1(kB, All(TA, F1(pP, B0))), F1(kB, All(TA, F1(pP, ca))))>>, BX(ns)), "nm.capture") }
+          : ns \in {<<>>, <<"bx">>} }
 R_subproof == { I("verit_subproof", <<PH(<<vp>>, vp), PH(<<vp>>, vq)>>, <<Neg(vp), vq>>),
                 I("verit_subproof", <<PH(<<vp>>, vp), PH(<<vr>>, vr), PH(<<vp, vr>>, Conj(vp, vr))>>, <<Neg(vp), Neg(vr), Conj(vp, vr)>>),
                 NM(I("verit_subproof", <<PH(<<vp>>, vp), PH(<<vp, vs>>, vq)>>, <<Neg(vp), vq>>), "nm.outerhyp") }
@@ -204,7 +221,8 @@ R_implies_simplify == UNION { { S("verit_implies_simplify", Imp(Neg(s[1]), Neg(s
                                 S("verit_implies_simplify", Imp(s[1], s[1]), TrueC),
                                 S("verit_implies_simplify", Imp(Neg(s[1]), s[1]), s[1]),
                                 S("verit_implies_simplify", Imp(s[1], Neg(s[1])), Neg(s[1])),
-                                S("verit_implies_simplify", Imp(Imp(s[1], s[2]), s[2]), Disj(s[1], s[2])) } : s \in FS2 }
+                                S("verit_implies_simplify", Imp(Imp(s[1], s[2]), s[2]), Disj(s[1], s[2])),
+                                NM(S("verit_implies_simplify", Imp(Imp(Imp(s[1], s[2]), s[2]), vs), Disj(s[1], s[2])), "nm.case9") } : s \in FS2 }
 R_equiv_simplify == UNION { { S("verit_equiv_simplify", Iff(Neg(s[1]), Neg(s[2])), Iff(s[1], s[2])),
                               S("verit_equiv_simplify", Iff(s[1], s[1]), TrueC),
                               S("verit_equiv_simplify", Iff(s[1], Neg(s[1])), FalseC),
@@ -286,6 +304,9 @@ R_la_generic ==
     LA(RealT, <<Neg(Le(RealT, ru, Num(RealT, 0))), Neg(Le(RealT, rv, ru)), Le(RealT, rv, Num(RealT, 0))>>, <<1, 1, 1>>),
     NM(LA(RealT, <<Le(RealT, ru, Num(RealT, 0)), Le(RealT, Num(RealT, 1), ru)>>, <<1, 1>>), "nm.intonly"),
     NM(LA(IntT, <<Lt(IntT, ix, iy), Lt(IntT, iy, ix)>>, <<1, 1>>), "nm.strict"),
+    NM(LA(RealT, <<Le(RealT, ru, rv), Neg(Le(RealT, ru, ru))>>, <<0, 1>>), "nm.zerocoeff"),
+    NM(LA(RealT, <<Lt(RealT, rv, rv), Neg(Lt(RealT, ru, rv))>>, <<1, 0>>), "nm.zerocoeff"),
+    NM(LA(IntT, <<Le(IntT, ix, iy), Neg(Le(IntT, ix, ix))>>, <<0, 1>>), "nm.zerocoeff"),
     NM(LA(RealT, <<Lt(RealT, ru, rv), Lt(RealT, rv, ru)>>, <<1, 1>>), "nm.strict"),
     NM(LA(IntT, <<Neg(Le(IntT, ix, iy)), Le(IntT, ix, Minus(IntT, iy, Num(IntT, 1)))>>, <<1, 1>>), "nm.offbyone") }
 R_la_disequality == { I("verit_la_disequality", <<>>, <<OrN(<<EqT(IntT, ix, iy), Neg(Le(IntT, ix, iy)), Neg(Le(IntT, iy, ix))>>)>>),
@@ -360,7 +381,29 @@ R_context == { IX("verit_refl", <<>>, <<Eqa(w0, ca)>>, KX(<< <<"v0", ca>> >>)),
                IX("verit_bind", <<PH(<<Eqa(w0, w0)>>, Iff(F1(pP, w0), F1(pP, w0)))>>, <<Iff(All(TA, F1(pP, B0)), All(TA, F1(pP, B0)))>>, KX(<< <<"v0", w0>> >>)),
                NM(IX("verit_bind", <<PS(Iff(F1(pP, w0), F1(pR, w0)))>>, <<Iff(All(TA, F1(pP, B0)), All(TA, F1(pR, B0)))>>, KX(<< <<"v0", w0>> >>)), "nm.ctx"),
                IX("verit_onepoint", <<>>, <<Iff(All(TA, Imp(Eqa(B0, ca), F1(pP, B0))), F1(pP, ca))>>, KX(<< <<"v0", ca>> >>)),
-               NM(IX("verit_onepoint", <<>>, <<Iff(All(TA, Imp(Eqa(B0, cb), F1(pP, B0))), F1(pP, ca))>>, KX(<< <<"v0", ca>> >>)), "nm.ctx") }
+               NM(IX("verit_onepoint", <<>>, <<Iff(All(TA, Imp(Eqa(B0, cb), F1(pP, B0))), F1(pP, ca))>>, KX(<< <<"v0", ca>> >>)), "nm.onepoint") }
+\* onepoint: the conclusion  (Q x. phi) <--> phi[t/x]  is closed and the evaluation consults no premise: it must be valid as it stands
+K2 == KX(<< <<"v0", ca>>, <<"v1", cb>> >>)
+R_onepoint ==
+  { IX("verit_onepoint", <<>>, <<Iff(All(TA, Imp(Eqa(B0, ca), F1(pP, B0))), Imp(Eqa(ca, ca), F1(pP, ca)))>>, KX(<< <<"v0", ca>> >>)),
+    IX("verit_onepoint", <<>>, <<Iff(Ex(TA, Conj(Eqa(B0, ca), F1(pP, B0))), Conj(Eqa(ca, ca), F1(pP, ca)))>>, KX(<< <<"v0", ca>> >>)),
+    IX("verit_onepoint", <<>>, <<Iff(All(TA, All(TA, Imp(Conj(Eqa(B1x, ca), Eqa(B0, cb)), F2(pQ, B1x, B0)))),
+                                      Imp(Conj(Eqa(ca, ca), Eqa(cb, cb)), F2(pQ, ca, cb)))>>, K2),
+    IX("verit_onepoint", <<>>, <<Iff(Ex(TA, Ex(TA, AndN(<<Eqa(B1x, ca), Eqa(B0, cb), F2(pQ, B1x, B0)>>))),
+                                      AndN(<<Eqa(ca, ca), Eqa(cb, cb), F2(pQ, ca, cb)>>))>>, K2),
+    NM(IX("verit_onepoint", <<>>, <<Iff(All(TA, All(TA, Imp(F2(pQ, B1x, B0), Neg(Eqa(B1x, ca))))), Imp(F2(pQ, ca, cb), Neg(Eqa(ca, ca))))>>, K2), "nm.onepoint"),
+    NM(IX("verit_onepoint", <<>>, <<Iff(All(TA, All(TA, Imp(Eqa(B1x, ca), F2(pQ, B1x, B0)))), Imp(Eqa(ca, ca), F2(pQ, ca, cb)))>>, K2), "nm.onepoint"),
+    NM(IX("verit_onepoint", <<>>, <<Iff(Ex(TA, Ex(TA, Conj(Eqa(B1x, ca), F2(pQ, B1x, B0)))), Conj(Eqa(ca, ca), F2(pQ, ca, cb)))>>, K2), "nm.onepoint"),
+    NM(IX("verit_onepoint", <<>>, <<Iff(All(TA, Imp(F1(pR, B0), F1(pP, B0))), Imp(F1(pR, ca), F1(pP, ca)))>>, KX(<< <<"v0", ca>> >>)), "nm.onepoint") }
+\* let: premises  t = s ..  and the last step  u = u'  derived under  x = s ;  conclusion  (let x = t in u) = u'  without that hypothesis
+LetC(T1, T2) == <<"const","Let",FunT(T1, FunT(FunT(T1, T2), T2))>>
+LetB(t, body) == App(App(LetC(TA, BoolT), t), <<"abs", TA, body>>)
+R_let ==
+  { I("verit_let", <<PS(Eqa(ca, cb)), PH(<<Eqa(w0, cb)>>, Iff(F1(pP, w0), F1(pP, cb)))>>, <<Iff(LetB(ca, F1(pP, B0)), F1(pP, cb))>>),
+    I("verit_let", <<PH(<<Eqa(w0, ca)>>, Iff(F1(pP, w0), F1(pP, ca)))>>, <<Iff(LetB(ca, F1(pP, B0)), F1(pP, ca))>>),
+    I("verit_let", <<PS(Eqa(cb, ca)), PH(<<Eqa(w0, cb), vs>>, Iff(F2(pQ, w0, w0), F2(pQ, cb, cb)))>>, <<Iff(LetB(ca, F2(pQ, B0, B0)), F2(pQ, cb, cb))>>),
+    NM(I("verit_let", <<PH(<<Eqa(w0, cb)>>, Iff(F1(pP, w0), F1(pP, cb)))>>, <<Iff(LetB(ca, F1(pP, B0)), F1(pP, cb))>>), "nm.let"),
+    NM(I("verit_let", <<PS(Eqa(ca, cc)), PH(<<Eqa(w0, cb)>>, Iff(F1(pP, w0), F1(pP, cb)))>>, <<Iff(LetB(ca, F1(pP, B0)), F1(pP, cb))>>), "nm.let") }
 
 \* ------------------------------------------------------------------ all intended instances and explicit near misses
 Schemas ==
@@ -374,9 +417,11 @@ Schemas ==
   \cup R_ite_simplify \cup R_ite_intro \cup R_eq_simplify \cup R_ac_simp \cup R_connective_def
   \cup R_la_generic \cup R_la_disequality \cup R_la_rw_eq \cup R_comp_simplify \cup R_sum_simplify \cup R_prod_simplify
   \cup R_minus_simplify \cup R_unary_minus_simplify \cup R_div_simplify
-  \cup R_forall_inst \cup R_qnt_simplify \cup R_qnt_rm_unused \cup R_qnt_join \cup R_qnt_cnf \cup R_context
+  \cup R_cong_binder \cup R_onepoint \cup R_let \cup R_forall_inst \cup R_qnt_simplify \cup R_qnt_rm_unused \cup R_qnt_join \cup R_qnt_cnf \cup R_context
 Rules == { i.rule : i \in Schemas }
-ContextRules == {"verit_refl", "verit_bind", "verit_let", "verit_onepoint", "verit_sko_ex", "verit_sko_forall"}
+\* rules whose conclusion is claimed under the variable mapping of an enclosing anchor: recorded, never judged
+\* (onepoint is judged as it stands; let is judged with the universal closure of C18_Sem)
+ContextRules == {"verit_refl", "verit_bind", "verit_sko_ex", "verit_sko_forall"}
 
 \* ------------------------------------------------------------------ near misses: one-point mutations
 BoolConn == {"conj", "disj", "implies", "equals", "xor"}
@@ -440,6 +485,8 @@ Candidates == Schemas \cup UNION { NearMisses(i) : i \in Intended }
 
 ResOf(i) == [h |-> SetToSeq(UNION { { i.prems[j].h[k] : k \in 1..Len(i.prems[j].h) } : j \in 1..Len(i.prems) }), c |-> OrN(i.cl)]
 \* subproof discharges the local assumptions (all premises but the last)
-ResOfRule(i) == IF i.rule = "verit_subproof" THEN [h |-> <<>>, c |-> OrN(i.cl)] ELSE ResOf(i)
+ResOfRule(i) == IF i.rule = "verit_subproof" THEN [h |-> <<>>, c |-> OrN(i.cl)]
+                ELSE IF i.rule = "verit_let" THEN [h |-> SelectSeq(ResOf(i).h, LAMBDA h : ~IsEqVar(h)), c |-> OrN(i.cl)]
+                ELSE ResOf(i)
 Judged(i) == i.rule \notin ContextRules
 =============================================================================
